@@ -21,4 +21,20 @@ def rule_writer(ctx):
     protocol.writer_table(ctx, "O14.1", {"reset", "delimiter"}, "fixed")
 
 
-RULES = [rule_writer]
+def rule_validation_is_the_readers(ctx):
+    """
+    "Its output validates again" composes the writer with the validation the reader applies.  The writer table stubs
+    validate_row; what validate_row and the built-in checks do with a row is decided by C04/C05's tables, which are
+    obligations of C14 as well: a rejected (never emitted) row must leave no trace in any check (O5.3), IsUnique must
+    refuse every repetition of a key, not only the second (O5.1), DistinctCount counts what was emitted (O5.2).
+    """
+    from .c05 import rule_distinct_count, rule_is_unique, rule_only_accepted_rows
+
+    rule_only_accepted_rows(ctx)
+    rule_is_unique(ctx)
+    rule_distinct_count(ctx)
+
+
+from .common import rule_module_state  # noqa: E402
+
+RULES = [rule_writer, rule_validation_is_the_readers, rule_module_state]
